@@ -353,6 +353,9 @@ class CHECK(Check):
         def sp_of(w):
             if isinstance(w, str):
                 return None if w == "omit" else {"sample_weight": None}
+            if (sum(case["g"]) + len(case["yt"])) % 2 == 0:
+                # an unused (None-valued) sample parameter listed BEFORE the weights must not affect them
+                return {"unused": None, "sample_weight": box(w, case["cont"]["w"], "w")}
             return {"sample_weight": box(w, case["cont"]["w"], "w")}
         if callable_form:
             sp = sp_of(weights[names[0]])
